@@ -12,7 +12,7 @@ Recs == ndJsonDeserialize(IOEnv.TRACE_FILE)
 VARIABLE tid
 
 ToSet(q) == {q[i] : i \in 1..Len(q)}
-CfgOf(j) == [n |-> j.n, exist |-> ToSet(j.exist), key |-> j.key, env |-> j.env, loc |-> j.loc, defx |-> j.defx]
+CfgOf(j) == [n |-> j.n, exist |-> ToSet(j.exist), key |-> j.key, env |-> j.env, loc |-> j.loc, defx |-> j.defx, val |-> j.val]
 Verdict(r) == IF r.k = "conf" THEN Clauses(CfgOf(r.c), r.obs)
               ELSE (IF FaceOf(r.u) # r.obs THEN {"face"} ELSE {})
 
